@@ -47,11 +47,12 @@ class Arr:
 
 
 class Closure:
-    __slots__ = ('span', 'fields')
+    __slots__ = ('span', 'fields', 'owner')
 
-    def __init__(self, span, fields):
+    def __init__(self, span, fields, owner=None):
         self.span = span
         self.fields = fields
+        self.owner = owner     # name of the function that created it (closures expanded from one macro share their span)
 
     def __repr__(self):
         return 'Closure(%s)' % self.span
@@ -211,7 +212,7 @@ def copyval(v):
     if t is Arr:
         return Arr([copyval(x) for x in v.fields])
     if t is Closure:
-        return Closure(v.span, [copyval(x) for x in v.fields])
+        return Closure(v.span, [copyval(x) for x in v.fields], getattr(v, 'owner', None))
     return v
 
 
